@@ -94,9 +94,12 @@ def scan(roots, *, hidden=False, follow=False, report_links=False, depth=None, m
         if follow:
             # cycle protection only: an entry reached again at a smaller nesting level (overlapping
             # roots, links) is walked again, so that the depth limit is counted from the nearest root
-            if path in visited and visited[path] <= level:
+            # ... and under the same ignore rules: an entry reached again along a route that carries other
+            # ignore files is judged again (selected = not ignored along SOME route from an input path)
+            vkey = (path, frozenset(r for rules in stack for r in rules)) if honour_ignore else path
+            if vkey in visited and visited[vkey] <= level:
                 return
-            visited[path] = level
+            visited[vkey] = level
         if honour_ignore and _ignored(stack, path, stat.S_ISDIR(lst.st_mode)):
             return
         if stat.S_ISREG(lst.st_mode):
